@@ -65,7 +65,12 @@ EXPLANATION = (
     "remote call carries, under the writer's share number, the queued data vectors (self._writevs / the joined SDMF "
     "share) on every path; (18) Retrieve.download starts the download for exactly [offset, offset + size) "
     "(size=None: up to the end of file; reads of >= 1 byte are never short-circuited) and _start_download records "
-    "that range before the segment range is computed (evaluated). "
+    "that range before the segment range is computed (evaluated); (19) the sizes the in-place update compares the "
+    "written range with are the size of the version being updated: MutableFileVersion.get_size() evaluates to the "
+    "data-length slot of self._version, and the calls _update makes (_do_modify_update or "
+    "_update_servermap(update_range=...)) and the segment numbers it records are the same whatever the filenode's "
+    "cached size (MutableFileNode.get_size() / _most_recent_size, which update() / modify() do not refresh) is - "
+    "evaluated for an accurate and for stale cached sizes on either side of each threshold. "
     "Undecided: block-hash-tree patching in Publish.update (old leaves kept, new leaves set), zfec and AES algebra, "
     "zero-length updates, sizes beyond 4 segments for the evaluated ranges (the arithmetic has no size-dependent "
     "branch other than the ones the grid crosses), whether the condition under which the proxies' tail block size "
@@ -77,7 +82,8 @@ TECHNIQUE = ("static analysis: polynomial normal forms of the size/offset formul
              "evaluation (CFG interpreter over ints, dicts and abstract byte strings; nothing of the package is "
              "imported or run) of the segment-range, trimming, stitching and share-layout arithmetic over boundary "
              "inputs, order provenance of the decoder's two input sequences, shape inference for answer components, "
-             "positional role tracking across the update-data hand-offs, return-value provenance of Deferreds")
+             "positional role tracking across the update-data hand-offs, return-value provenance of Deferreds, "
+             "differential evaluation (same inputs, different cached node size) of the update's decisions")
 
 LAY = "mutable.layout"
 WP = LAY + ":MDMFSlotWriteProxy"
@@ -1508,8 +1514,10 @@ def run(ctx: Context):
                     lens |= {S - off % S, S - off % S + 1}
                 for L in sorted(x for x in lens if x >= 1):
                     sim = _Sim(idx, observe={"_update_servermap"})
-                    heap = {"self": {"get_size()": Z, "_version": _verinfo(pos, None, S, Z, 3, 10), "is_mutable()": True},
-                            "data": {"get_size()": L}}
+                    # (the filenode's cached size is accurate here; that nothing depends on it is C09.19)
+                    heap = {"self": {"get_size()": Z, "_version": _verinfo(pos, None, S, Z, 3, 10), "is_mutable()": True,
+                                     "_node": _Ref("node")},
+                            "node": {"get_size()": Z, "_most_recent_size": Z}, "data": {"get_size()": L}}
                     outs9 = sim.run(up, {"self": _Ref("self"), ups[0]: _Ref("data"), ups[1]: off}, heap)
                     runs += 1
                     for (ofn, call, args, kwargs) in sim.seen:
@@ -2354,6 +2362,139 @@ def run(ctx: Context):
         if bad:
             r.violation(bad[0], bad[0].loc(bad[1]), bad[2])
 
+    # ---- 19. the update's decisions are functions of the updated version's own size ------------------------------
+    with ctx.rule("C09.19", "R6", "every size the in-place update compares the written range with (re-encode or patch in "
+                  "place, which old boundary segments to fetch) is the size of the version being updated: "
+                  "MutableFileVersion.get_size() is the data-length slot of self._version, and the calls _update makes "
+                  "(_do_modify_update / _update_servermap(update_range) and the recorded segment numbers) do not vary "
+                  "with the filenode's cached size, which an in-place update() or modify() does not refresh; decided by "
+                  "evaluating get_size and _update under accurate and stale cached sizes", expected=2) as r:
+        _need("the verinfo positions of C09.1 and the segment size of C09.8", pos, S3)
+        S = S3
+        up = idx.func(MFV + "._update")
+        ups = first_positional_params(up)           # data, offset
+        if len(ups) < 2:
+            raise AnchorVanished("MutableFileVersion._update(data, offset) signature changed")
+        gsz = idx.cls(MFV).lookup("get_size")
+        if not isinstance(gsz, FuncInfo):
+            raise AnchorVanished("MutableFileVersion.get_size")
+        sv = idx.func("mutable.servermap:ServerMap.size_of_version")
+        svp = first_positional_params(sv)
+        if len(svp) != 1:
+            raise AnchorVanished("ServerMap.size_of_version(verinfo) signature changed")
+
+        def size_of(hp, args):
+            """ServerMap.size_of_version, by evaluating its own statements (that it gives the D slot is C09.6)."""
+            if len(args) != 1:
+                return UNK
+            o = _Sim(idx).run(sv, {"self": _Ref("sm"), svp[0]: args[0]}, {"sm": {}})
+            return o[0][0] if len(o) == 1 else UNK
+
+        def heap19(Z, L, cached):
+            return {"self": {"_version": _verinfo(pos, None, S, Z, 3, 10), "is_mutable()": True, "_node": _Ref("node"),
+                             "_servermap": _Ref("sm")},
+                    "sm": {"size_of_version(*)": size_of},
+                    "node": {"get_size()": cached, "_most_recent_size": cached},
+                    "data": {"get_size()": L}}
+
+        def reads(sim):
+            out = []
+            for (f, e) in sim.touched:
+                if not any(e is x for (_f, x) in out):
+                    out.append((f, e))
+            return out
+
+        # (a) the size of the version being updated
+        r.site(gsz, None, "size of the version being updated")
+        runs = 0
+        bad_a = None
+        for Z in (0, 1, S - 1, S, 2 * S + 777):
+            for cached in (Z, 0, Z + S + 1):
+                sim = _Sim(idx)
+                sim.watch = {"node"}
+                outs = sim.run(gsz, {"self": _Ref("self")}, heap19(Z, 1, cached))
+                runs += 1
+                if len(outs) != 1 or not isinstance(outs[0][0], int) or isinstance(outs[0][0], bool):
+                    raise AnalysisError("cannot evaluate %s for a version of %d bytes (%s)" % (
+                        short(gsz), Z, "%d paths" % len(outs) if len(outs) != 1 else "result %r" % (outs[0][0],)))
+                if outs[0][0] != Z and bad_a is None:
+                    rd = reads(sim)
+                    bad_a = (rd[0][1] if rd else None,
+                             "%s gives %d for a version whose data length (verinfo[%d]) is %d while the filenode's cached "
+                             "size is %d%s; the update path compares the written range with this value" % (
+                                 short(gsz), outs[0][0], pos["D"], Z, cached,
+                                 " (it reads %s)" % ", ".join(src(f, e) for (f, e) in rd) if rd else ""))
+        if bad_a:
+            r.violation(gsz, gsz.loc(bad_a[0]) if bad_a[0] is not None else gsz.loc(), bad_a[1])
+
+        # (b) the decisions of _update under an accurate and under stale cached node sizes
+        def outcome(Z, off, L, cached):
+            sim = _Sim(idx, observe={"_update_servermap", "_do_modify_update"})
+            sim.watch = {"node"}
+            outs = sim.run(up, {"self": _Ref("self"), ups[0]: _Ref("data"), ups[1]: off}, heap19(Z, L, cached))
+            calls = []
+            for (_f, c, a, k) in sim.seen:
+                calls.append((call_tail(c), ", ".join([repr(x) for x in a] + ["%s=%r" % kv for kv in sorted(k.items())])))
+            recorded = sorted({(me[2]["self"].get("_start_segment", None), me[2]["self"].get("_end_segment", None))
+                               for me in outs}, key=repr)
+            return (len(outs), tuple(calls), repr(recorded)), sim
+
+        def describe(o):
+            n, calls, rec = o
+            if not n:
+                return "raises"
+            return "%s, records (start, end) segment %s" % (
+                "; ".join("%s(%s)" % (t, a) for (t, a) in calls) or "makes no call",
+                rec)
+
+        r.site(up, None, "decisions under stale cached node sizes")
+        pts = _boundary_points(S)
+        first = later = None         # a stale size below the real one (the file grew) is reported in preference
+        for Z in pts:
+            for off in [x for x in pts if x <= Z]:
+                lens = {1, S + 1}
+                if Z > off:
+                    lens |= {Z - off, Z - off - 1, Z - off + 1}
+                if off % S or Z > off:
+                    lens |= {S - off % S + 1}
+                for L in sorted(x for x in lens if x >= 1):
+                    if first:
+                        continue
+                    ref, sim0 = outcome(Z, off, L, Z)
+                    runs += 1
+                    if ref[0] != 1 or "?" in repr(ref):
+                        raise AnalysisError("cannot evaluate the decisions of %s for a %d-byte write at offset %d of a "
+                                            "%d-byte file: %s" % (short(up), L, off, Z, describe(ref)))
+                    # stale sizes on either side of every threshold the written range is compared with
+                    for cached in sorted({0, off, off + L, off + L + 1, (off // S) * S, Z + S + 1} - {Z}):
+                        if cached < 0 or first or (later and cached > Z):
+                            continue
+                        got, sim1 = outcome(Z, off, L, cached)
+                        runs += 1
+                        if got != ref:
+                            rd = reads(sim1)
+                            if not rd:
+                                raise AnalysisError("%s behaves differently for equal inputs without reading the cached "
+                                                    "node size" % short(up))
+                            found = (rd, "for a %d-byte write at offset %d of a %d-byte MDMF file (S=%d) the update %s "
+                                     "when the filenode's cached size is accurate, but %s when it is %d: the decision "
+                                     "reads %s - the node's cached size (_most_recent_size), which in-place update() / "
+                                     "modify() do not refresh and which need not be the size of the version being "
+                                     "updated (self.get_size(), verinfo[%d] of self._version); with a stale size the "
+                                     "wrong old boundary segments are fetched (or the wrong path is taken) and bytes "
+                                     "behind the write are replaced" % (
+                                         L, off, Z, S, describe(ref), describe(got), cached,
+                                         ", ".join("%s in %s" % (src(f, e), short(f)) for (f, e) in rd), pos["D"]))
+                            if cached < Z:
+                                first = found
+                            else:
+                                later = later or found
+        r.count(runs)
+        first = first or later
+        if first:
+            f0, e0 = first[0][0]
+            r.violation(f0, f0.loc(e0), first[1])
+
 
 # ---- which component of a nested answer structure an expression is (flow-insensitive shape inference) ----
 # shapes: "shnum" / "block" / "salt" (atoms), ("tuple", (shapes..)), ("list", shape), ("dict", key shape, value shape),
@@ -3146,6 +3287,8 @@ class _Sim(object):
         self.seen = []                   # [(FuncInfo, ast.Call, [args], {kwargs})]
         self.seen_heap = []              # the heap at each recorded call (parallel to .seen)
         self.halt_at_loops = False       # True: a path that reaches a loop head ends there and is reported
+        self.watch = set()               # heap object names whose member reads / modelled calls are recorded
+        self.touched = []                # [(FuncInfo, expression)] reads of watched objects, in evaluation order
         self.const_depth = 0
         self.depth = 0
 
@@ -3213,6 +3356,8 @@ class _Sim(object):
         if isinstance(e, ast.Attribute):
             b = self.ev(fn, e.value, fr, hp)
             if isinstance(b, _Ref):
+                if b.name in self.watch:
+                    self.touched.append((fn, e))
                 return hp[b.name].get(e.attr, UNK)
             if b is UNK:
                 try:
@@ -3307,6 +3452,8 @@ class _Sim(object):
             recv = self.ev(fn, e.func.value, fr, hp)
             if isinstance(recv, _Ref):
                 mem = hp[recv.name]
+                if recv.name in self.watch:
+                    self.touched.append((fn, e))
                 if not args and not kwargs and (e.func.attr + "()") in mem:
                     return mem[e.func.attr + "()"]
                 if not kwargs and (e.func.attr + "(*)") in mem:
